@@ -331,6 +331,9 @@ func (e *Env) RunExpand(ctx context.Context, ev *ExpandEv) {
 	ev.Got = treeFromProto(resp.GetTree().GetRoot())
 }
 
+// LastModelGraphErr is the error of the most recent failed modelgraph.New.
+var LastModelGraphErr string
+
 // Typesystem builds the validated typesystem of the model as stored (with id).
 func (e *Env) Typesystem(ctx context.Context, m *Model) (*typesystem.TypeSystem, *modelgraph.AuthorizationModelGraph, error) {
 	pm := m.ToProto()
@@ -339,7 +342,11 @@ func (e *Env) Typesystem(ctx context.Context, m *Model) (*typesystem.TypeSystem,
 	if err != nil {
 		return nil, nil, err
 	}
-	mg, _ := modelgraph.New(pm)
+	mg, mgErr := modelgraph.New(pm)
+	if mgErr != nil {
+		LastModelGraphErr = mgErr.Error()
+		mg = nil
+	}
 	return ts, mg, nil
 }
 
